@@ -210,10 +210,11 @@ def get_query_argument(url, key):
     if not o.query:
         return None
 
+    # NOTE: names and values are escaped in the url (see add_query_argument)
     for q in safe_qsl_iter(o.query):
-        if key == q[0]:
+        if key == unquote(q[0]):
             if q[1] is None:
                 return True
-            return q[1]
+            return unquote(q[1])
 
     return None
